@@ -139,7 +139,7 @@ theorem C14_ss_never_raises {m : Nat} (c : SSCfg α) (hs : List Bool) :
 
 /-- Under every accept/reject history: every width stays `≥ 0` and is at most its initial
     value plus `(1-ξ) Δ/10` times the gains absorbed, which never exceed the gains of the
-    whole window `Σ_{1 ≤ d < T} g_d` (explicit in `T`; `g_d ≤ 0.9`, `C14_veitch_gain_le`). -/
+    whole window `Σ_{1 ≤ d < T} g_d` (explicit in `T`; `g_d ≤ 1`, `C14_veitch_gain_le`). -/
 theorem C14_veitch_bounded {n : Nat} (c : VeitchCfg α n) (hxi : 0 < c.xi ∧ c.xi < 1)
     (hd : ∀ i : Fin n, 0 < c.deltas[i]) (hs : List Bool) (a a' : Ad (Vector α n))
     (hw : a.clock.cfg.window = .veitch) (hci : ClockInv a)
@@ -299,7 +299,7 @@ theorem C14_veitch_default_proportional {n : Nat} (xi : α) (deltas : Vector α 
 
 /-- **The exact-zero candidate is excluded by the guard** (repo fix 36b7cfa).  With
     `target_rate = 1/2` and the default initial widths `σ₀ = (1-ξ) 0.09 Δ = 0.045 Δ`, the first
-    update of the window (`dk = 1`, gain `1^-β - 0.1 = 0.9` for EVERY decay,
+    update of the window (`dk = 1`, gain `1 - T^-β = 0.9` for the default decay,
     `C14_veitch_gain_one`) after a rejected step proposes the new width
     `σ₀ - ξ 0.9 Δ/10 = 0` — exactly zero, not a coincidence of rounding, and not `< 0` (a guard
     testing only `< 0` would install it: numpy then returns the current point for `scale = 0`,
@@ -721,14 +721,15 @@ theorem C14_vmf_logkappa_representable (T : ℕ) (hT : T ≤ 1000000) (xi : ℝ)
   rw [abs_le] at hbound
   exact ⟨⟨by linarith [hbound.1], by linarith [hbound.2]⟩, abs_le.mpr hbound⟩
 
-/-- The first gain of the Veitch window is `0.9` whatever the decay (hypothesis `hg` of
+/-- The first gain of the Veitch window is `0.9` with the default decay (`1 - T^-β` in general; hypothesis `hg` of
     `C14_veitch_zero_width_excluded` at `α = ℝ`). -/
-theorem C14_veitch_gain_one (β : ℝ) : gainV β 1 = 9 / 10 := gainV_one β
+theorem C14_veitch_gain_one (T : ℕ) (hT : 1 < T) : gainV T (1 / Real.logb 10 T) 1 = 9 / 10 :=
+  gainV_one_default T hT
 
-/-- The Veitch gain is at most `0.9` (for any decay `≥ 0`): with `C14_veitch_bounded`,
-    `σ ≤ σ₀ + 0.09 (1-ξ) Δ (T-1)`. -/
-theorem C14_veitch_gain_le (β : ℝ) (hβ : 0 ≤ β) (dk : ℤ) (h1 : 1 ≤ dk) : gainV β dk ≤ 0.9 :=
-  gainV_le β hβ dk h1
+/-- The Veitch gain is at most `1` (for any decay `≥ 0`; `≤ 1 - T^-β`): with `C14_veitch_bounded`,
+    `σ ≤ σ₀ + 0.1 (1-ξ) Δ (T-1)`. -/
+theorem C14_veitch_gain_le (T : ℕ) (β : ℝ) (hβ : 0 ≤ β) (dk : ℤ) (h1 : 1 ≤ dk) : gainV T β dk ≤ 1 :=
+  gainV_le T β hβ dk h1
 
 /-- **The stall** (F19).  Exact arithmetic, the code's own gains: after a window of always
     accepted steps (`β ≈ 0` on a bounded domain) the Andrieu–Thoms scale factor is
